@@ -389,7 +389,7 @@ theorem qnameError_ord {t : Token} {p l : StrSpan} (hab : t.Abuts) (hq : t.qname
   · exact absurd h0 hp.2
   · unfold StrSpan.stop at h ⊢; omega
 
-theorem step_ord {b : Builder} (t : Token) (rest : List Token) (h : SpansOrd b (t :: rest)) (hab : t.Abuts)
+theorem pso_step_ord {b : Builder} (t : Token) (rest : List Token) (h : SpansOrd b (t :: rest)) (hab : t.Abuts)
     (hlater : ∀ sa, t.textSpan? = some sa → ∀ t' ∈ rest, ∀ sb, t'.textSpan? = some sb → sa.start ≤ sb.stop) :
     StepOrd rest (b.step t) := by
   refine b.step_cases t (fun _ => stepCore_ord t rest h hab hlater) ?_
@@ -416,7 +416,7 @@ theorem run_ord (lexErr : Option Nat) (ts : List Token) :
     intro b h hab hto
     simp only [Builder.run]
     have hto' := List.pairwise_cons.mp hto
-    have hs := step_ord t ts h (hab t (by simp)) (fun sa hsa t' ht' sb hsb => hto'.1 t' ht' sa sb hsa hsb)
+    have hs := pso_step_ord t ts h (hab t (by simp)) (fun sa hsa t' ht' sb hsb => hto'.1 t' ht' sa sb hsa hsb)
     cases hb : b.step t with
     | ok b1 =>
       rw [hb] at hs
